@@ -47,7 +47,9 @@ struct C04 : Scenario {
         double frac = r.chance(0.4) ? r.uniform(0.2, 0.48) : r.loguniform(0.02, 0.2);
         if (frac * delta * delta < 2e-3 && r.chance(0.7)) { c.grid = r.range(36, 52); delta = c.pssize / (c.grid - 1); }
         double e1 = std::min(std::max(frac * delta * delta, 2e-3), std::min(0.48 * delta * delta, 0.03));
-        if (r.chance(0.25)) { c.steps_per_rev = 0; }
+        if (r.chance(0.3)) { c.shifty = r.chance(0.5) ? (double)r.range(-3, 3) : std::round(r.uniform(-3, 3) * 4) / 4; if (r.chance(0.5)) c.shiftx = (double)r.range(-2, 2); }
+        if (r.chance(0.15)) c.steps_per_rev = (double)c.steps * derive(c).fs / derive(c).f_rev * r.uniform(0.97, 1.03);   // non-integer steps per period
+        if (r.chance(0.15)) c.fs = std::round(r.uniform(2e4, 8e4));
         Derived d0 = derive(c);
         c.tdamp = 2.0 / (d0.fs * e1 * d0.steps);
         p.setd("e1", e1);
@@ -154,15 +156,15 @@ struct C04 : Scenario {
         o.simperiods = h.t.back();
         auto emit = [&](size_t i) { return (h.sz[i] * h.sz[i] + h.se[i] * h.se[i]) / 2; };
         if (mode == "damp_only") {
-            for (size_t i = 1; i < n; i++) if (emit(i) > emit(i - 1) + 1e-4) { o.fail("C04.damping_only_shrinks", "damping only: emittance grows from " + fmt_g(emit(i - 1), 7) + " to " + fmt_g(emit(i), 7) + " between periods " + fmt_g(h.t[i - 1], 4) + " and " + fmt_g(h.t[i], 4) + ctx); break; }
+            for (size_t i = 1; i < n; i++) if (emit(i) > emit(i - 1) * (1 + 0.25 * (double)d.angle * (double)d.angle) + 1e-4) { /* slack: non-stroboscopic samples beat by O(theta^2) */ o.fail("C04.damping_only_shrinks", "damping only: emittance grows from " + fmt_g(emit(i - 1), 7) + " to " + fmt_g(emit(i), 7) + " between periods " + fmt_g(h.t[i - 1], 4) + " and " + fmt_g(h.t[i], 4) + ctx); break; }
             double lnr = std::log(emit(n - 1) / emit(0)), expect = -rate * (h.t[n - 1] - h.t[0]);
             if (!(lnr < 0.4 * expect && lnr > 3.0 * expect - 0.05)) o.fail("C04.damping_only_rate", "damping only: ln(emittance ratio) over " + fmt_g(h.t.back(), 4) + " periods is " + fmt_g(lnr, 4) + ", configured damping gives " + fmt_g(expect, 4) + ctx);
         } else if (mode == "diff_only") {
-            for (size_t i = 1; i < n; i++) if (emit(i) < emit(i - 1) - 1e-4) { o.fail("C04.diffusion_only_grows", "diffusion only: emittance shrinks from " + fmt_g(emit(i - 1), 7) + " to " + fmt_g(emit(i), 7) + ctx); break; }
+            for (size_t i = 1; i < n; i++) if (emit(i) < emit(i - 1) * (1 - 0.25 * (double)d.angle * (double)d.angle) - 1e-4) { o.fail("C04.diffusion_only_grows", "diffusion only: emittance shrinks from " + fmt_g(emit(i - 1), 7) + " to " + fmt_g(emit(i), 7) + ctx); break; }
             double grow = emit(n - 1) - emit(0), expect = rate * (h.t[n - 1] - h.t[0]);   // d(emittance)/dt = e1 per step
             if (!(grow > 0.5 * expect && grow < 1.6 * expect + 0.02)) o.fail("C04.diffusion_only_rate", "diffusion only: emittance grew by " + fmt_g(grow, 4) + " over " + fmt_g(h.t.back(), 4) + " periods, configured diffusion gives " + fmt_g(expect, 4) + ctx);
         } else {
-            for (size_t i = 1; i < n; i++) if (std::fabs(emit(i) / emit(0) - 1) > 1e-3 + 1e-3 * h.t[i] + 0.25 * (double)d.angle * (double)d.angle) { o.fail("C04.neither_stays_put", "no damping/diffusion: length/spread moved from " + fmt_g(h.sz[0], 6) + "/" + fmt_g(h.se[0], 6) + " to " + fmt_g(h.sz[i], 6) + "/" + fmt_g(h.se[i], 6) + " (emittance ratio " + fmt_g(emit(i) / emit(0), 7) + ") within " + fmt_g(h.t[i], 3) + " periods" + ctx); break; }
+            for (size_t i = 1; i < n; i++) if (std::fabs(emit(i) / emit(0) - 1) > 1e-3 + 1e-3 * h.t[i] + 0.25 * (double)d.angle * (double)d.angle + 1.3 * h.t[i] * std::pow((double)d.angle, 3)) { /* a round beam is not matched to the tilted invariant ellipse of a kick-drift map; its (sz^2+sE^2)/2 beats by ~theta as the true period (2pi/mu steps) slips against the nominal one */ o.fail("C04.neither_stays_put", "no damping/diffusion: length/spread moved from " + fmt_g(h.sz[0], 6) + "/" + fmt_g(h.se[0], 6) + " to " + fmt_g(h.sz[i], 6) + "/" + fmt_g(h.se[i], 6) + " (emittance ratio " + fmt_g(emit(i) / emit(0), 7) + ") within " + fmt_g(h.t[i], 3) + " periods" + ctx); break; }
         }
         o.sample = mode + " zoom=" + fmt_g(cfg.zoom, 3) + " emittance " + fmt_g(emit(0), 5) + " -> " + fmt_g(emit(n - 1), 5) + ctx;
         return o;
